@@ -1361,7 +1361,12 @@ class Recompiler:
         for tp1 in tp.args:
             realindex = self._typesdict[tp1]
             if index != realindex:
-                if isinstance(tp1, model.PrimitiveType):
+                if (isinstance(tp1, model.PrimitiveType) and
+                        not tp1.is_complex_type()):
+                    # (not for complex types: their arguments are converted
+                    # with _cffi_to_c(..., _cffi_type(realindex), ...), so
+                    # that slot must be realized together with this function
+                    # type; OP_NOOP does that)
                     self._emit_bytecode_PrimitiveType(tp1, index)
                 else:
                     self.cffi_types[index] = CffiOp(OP_NOOP, realindex)
